@@ -771,6 +771,28 @@ Definition c18_check_alignments (L : Z) (ref : option str) (mdc : Z) (pos : list
            (haps als : list str) : bool :=
   list_eqb str_eqb (map (alignment_of L ref mdc pos) haps) als.
 
+(* write_nexus names tree k by the k-th and (k+1)-th BREAKPOINT, each formatted once from the
+   breakpoint itself (tree.interval), never from accumulated spans *)
+Fixpoint intervals_of (toks : list str) : list (str * str) :=
+  match toks with
+  | a :: ((b :: _) as r) => (a, b) :: intervals_of r
+  | _ => []
+  end.
+
+(* precision=None (trees.py as_newick): 0 decimals iff ts.discrete_time, i.e. iff ALL node,
+   mutation (unknown excluded) and migration times are integers; 17 otherwise.  Times as scaled
+   integers x / 10^q. *)
+Definition is_integral (q x : Z) : bool := x mod 10 ^ q =? 0.
+Definition discrete_time (q : Z) (nodes muts migs : list Z) : bool :=
+  forallb (is_integral q) nodes && forallb (is_integral q) muts && forallb (is_integral q) migs.
+Definition resolve_precision (p : option Z) (q : Z) (nodes muts migs : list Z) : Z :=
+  match p with
+  | Some x => x
+  | None => if discrete_time q nodes muts migs then 0 else 17
+  end.
+Definition c18_check_default_precision (q : Z) (nodes muts migs : list Z) (used : Z) : bool :=
+  resolve_precision None q nodes muts migs =? used.
+
 Definition c18_check_wrap (s : str) (w : Z) (obs : option (list str)) : bool :=
   match wrap_text s w, obs with
   | Ok ls, Some o => list_eqb str_eqb ls o
